@@ -574,6 +574,26 @@ def cached_cxx_many(ctx, jobs):
     return res
 
 
+def regen_proto(ctx):
+    """deep-embedding dump of the merge hand-over loops (c10_proto.py) from the CURRENT headers; a failure deletes the stale file"""
+    out = os.path.join(ctx.cdir, 'Gen_MergeProto.v')
+    try:
+        import importlib.util, hashlib
+        spec = importlib.util.spec_from_file_location('c10_proto', os.path.join(ctx.pdir, 'c10_proto.py'))
+        mod = importlib.util.module_from_spec(spec); spec.loader.exec_module(mod)
+        txt = mod.translate(os.path.join(ctx.pdir, 'inst.cpp'), ctx.repo)
+        if not os.path.exists(out) or open(out).read() != txt:
+            open(out, 'w').write(txt)
+        ctx.tie_obligations.append({'name': 'dump Gen_MergeProto (pvMergeTo / pvExtract / pvMergeToLinear statement trees)', 'ok': True,
+                                    'sha256': hashlib.sha256(txt.encode()).hexdigest()[:16]})
+        ctx.stage('regen-proto', True)
+    except Exception as e:
+        if os.path.exists(out):
+            os.remove(out)
+        ctx.tie_obligations.append({'name': 'dump Gen_MergeProto', 'ok': False, 'error': str(e)[:300]})
+        ctx.stage('regen-proto', False, str(e)[:500])
+
+
 def run(ctx):
     scale = 1 if ctx.quick() else 4
     ctx.trusted += ['extraction: ExtrOcamlBasic only (no Extract Constant), OCaml 4.13.1, zarith for decimal I/O only',
@@ -587,6 +607,7 @@ def run(ctx):
         'destination internals (growth, rebalancing) are abstracted to one fallible find step and one fallible allocation step per insertion; their own safety is C04/C11',
         'ExtraCheckMode::nothing in the harness containers (see NOTES.md: the debug-only extra check turns a throwing functor into an assertion failure)']
     ctx.regen(['gen_holder.json', 'gen_holder_tree.json', 'gen_stdinsert.json', 'gen_stdinsert_u.json', 'gen_stdinsert_n.json', 'gen_mergeto.json', 'gen_treeswap.json', 'gen_extracheck_t.json', 'gen_extracheck_h.json'])
+    regen_proto(ctx)
     ctx.prove()
     exes = build_all(ctx)
     harness = exes.get('harness')
